@@ -449,7 +449,11 @@ pub fn substitute(target: &[R], args: &BTreeMap<String, ArgR>, at: &str) -> Resu
             R::Text(_) | R::Lit(_) => out.push(r.clone()),
             R::Var { name, .. } => match args.get(name) {
                 Some(ArgR::Segs(s)) => out.extend(s.iter().cloned()),
-                Some(ArgR::Num(_, lex)) => out.push(R::Lit(lex.clone())),
+                Some(ArgR::Num(n, lex)) => out.push(R::Lit(match n {
+                    Num::I(_) => lex.clone(),
+                    // a float literal is shown the way Rust displays the f64 it denotes
+                    Num::F(f) => f.to_string(),
+                })),
                 None => out.push(r.clone()),
             },
             R::Comp { name, inner } => out.push(R::Comp { name: name.clone(), inner: substitute(inner, args, at)? }),
@@ -465,6 +469,11 @@ pub fn substitute(target: &[R], args: &BTreeMap<String, ArgR>, at: &str) -> Resu
                         out.push(R::Range { count: count.clone(), ty: *ty, branches: b2 });
                     }
                     Some(ArgR::Num(n, _)) => {
+                        if ty.is_float() && matches!(n, Num::I(_)) {
+                            // an integer literal for a float range: the loader rejects it with a
+                            // descriptive error; the statement does not say it must be accepted
+                            return Err(MErr::Unspecified { why: "integer literal count for a float range".into() });
+                        }
                         let n = match ty.coerce(*n) {
                             Ok(n) => n,
                             Err(()) => return Err(MErr::BadCountArg { at: at.to_string() }),
@@ -529,6 +538,28 @@ pub fn category_float(locale: &str, ordinal: bool, f: f64) -> Form {
     let r = plural_rules(locale, ordinal).expect("plural rules");
     let d = fixed_decimal::FixedDecimal::try_from_f64(f, fixed_decimal::FloatPrecision::Floating).expect("finite");
     Form::from_icu(r.category_for(&d))
+}
+
+/// The run-time category is decided by the locale being rendered (C05), whatever locale the
+/// forms were written in.
+pub fn set_plural_locale(rs: &mut [R], loc: &str) {
+    for r in rs {
+        match r {
+            R::Comp { inner, .. } => set_plural_locale(inner, loc),
+            R::Range { branches, .. } => {
+                for (_, v) in branches {
+                    set_plural_locale(v, loc);
+                }
+            }
+            R::Plural { locale, forms, .. } => {
+                *locale = loc.to_string();
+                for v in forms.values_mut() {
+                    set_plural_locale(v, loc);
+                }
+            }
+            _ => {}
+        }
+    }
 }
 
 /// `  {{ n }}  ` -> n
@@ -929,5 +960,103 @@ fn sig_into(rs: &[R], s: &mut Sig) {
                 }
             }
         }
+    }
+}
+
+// ---------------------------------------------------------------------------------------------
+// Range declaration validity (C04)
+// ---------------------------------------------------------------------------------------------
+
+#[derive(Clone, Debug, PartialEq, Eq)]
+pub enum DeclStatus {
+    Accept,
+    Reject(String),
+    Open(String),
+}
+
+pub fn range_decl_status(r: &RangeDecl) -> DeclStatus {
+    let ty = match &r.ty {
+        None => NumTy::I32,
+        Some(t) => match NumTy::from_name(t.trim()) {
+            Some(t) => t,
+            None => return DeclStatus::Reject(format!("unknown range type {t:?}")),
+        },
+    };
+    if r.branches.is_empty() {
+        return DeclStatus::Reject("empty range".into());
+    }
+    let mut open = None;
+    let mut fallbacks = 0;
+    let n = r.branches.len();
+    for (i, b) in r.branches.iter().enumerate() {
+        if matches!(&*b.value, Val::Range(_)) {
+            return DeclStatus::Reject("nested range".into());
+        }
+        if matches!(&*b.value, Val::Sub(_)) {
+            return DeclStatus::Reject("subkeys inside a range".into());
+        }
+        if matches!(&*b.value, Val::Null) {
+            open = Some("null as a branch value".to_string());
+        }
+        let mut is_fb = b.counts.is_empty();
+        let mut partial_fb = false;
+        for c in &b.counts {
+            match parse_count_spec(ty, c) {
+                Err(SpecErr::Invalid) => return DeclStatus::Reject(format!("invalid count {c:?} for {}", ty.name())),
+                Err(SpecErr::EmptyRange) => open = Some(format!("empty range {c:?}")),
+                Ok(specs) => {
+                    if specs.contains(&Spec1::Fallback) {
+                        if b.counts.len() == 1 {
+                            is_fb = true;
+                        } else {
+                            partial_fb = true;
+                        }
+                    }
+                }
+            }
+        }
+        if partial_fb {
+            open = Some("fallback inside a list of counts".into());
+        }
+        if is_fb {
+            fallbacks += 1;
+            if i + 1 != n {
+                return DeclStatus::Reject("fallback before the last branch".into());
+            }
+        }
+    }
+    if fallbacks > 1 {
+        return DeclStatus::Reject("several fallbacks".into());
+    }
+    if ty.is_float() && fallbacks == 0 {
+        return match open {
+            // a list fallback may or may not count as the required fallback
+            Some(w) if w.starts_with("fallback inside") => DeclStatus::Open(w),
+            _ => DeclStatus::Reject("float range without fallback".into()),
+        };
+    }
+    match open {
+        Some(w) => DeclStatus::Open(w),
+        None => DeclStatus::Accept,
+    }
+}
+
+pub fn ranges_status(entries: &[(String, Val)]) -> DeclStatus {
+    let mut open = None;
+    for (_, v) in entries {
+        let st = match v {
+            Val::Range(r) => range_decl_status(r),
+            Val::Sub(s) => ranges_status(s),
+            _ => DeclStatus::Accept,
+        };
+        match st {
+            DeclStatus::Accept => {}
+            DeclStatus::Reject(w) => return DeclStatus::Reject(w),
+            DeclStatus::Open(w) => open = Some(w),
+        }
+    }
+    match open {
+        Some(w) => DeclStatus::Open(w),
+        None => DeclStatus::Accept,
     }
 }
